@@ -18,12 +18,22 @@ CHECKS = {
              note='the rebuilt binary is verified to be the loaded one; stale in-tree .so is never used; float32/MKL not covered'),
  'C05': dict(text='spec/Factor.tla builds block-sparse matrices over Gaussian integers (unsorted / repeated charge blocks, pipes on either side, non-zero qtotal, absent vs stored-zero blocks, planted ranks) and states each factorization as a relation whose data TLC computes exactly (per-sector ranks by fraction-free elimination, trace moments, expected charge multiset / qconj / qtotals of the new leg, finite exponential series); TLC checks FactorChargeRule, SectorsConsistent, ExpmRule etc. exhaustively; every enumerated case is replayed on the real svd/qr/lq/eigh/eig/eigvals/speigs/expm/pinv/polar/orthogonal_columns: structure compared exactly, characterising identities evaluated on the returned floats at 1e-9*scale.',
              note='accuracy on ill-conditioned matrices not decided (small integer instances only); ARPACK path of speigs not modelled; trusts TLC and harness/factor.py'),
+ 'C07': dict(text='spec/MPSState.tla: the abstract state is the dense state vector over Gaussian integers plus the recorded norm; the representation layer has per-site form exponents, bond values (powers of 4), integer tensors with non-uniform bond dimensions, charge masks, finite/segment/infinite boundary conditions. Actions: plain constructor, from_product_state, from_lat_product_state, from_singlets, from_product_mps_covering, from_full, from_Bflat, convert_form, set_B, get_B/get_theta/get_SL/get_SR observers (also outside the unit cell), canonical_form. TLC checks Rep (contraction of the representation = psi), Divisible, FormStutter, GetBInvariant on all enumerated instances and all sequences of <= 3 form conversions; each behaviour is replayed into real MPS objects and the harness own numpy contraction of psi._B/_S/form is compared bit-exactly with the spec state; SVD/QR routes (from_full, canonical_form) through proportionality, norm and exact Schmidt-moment relations.',
+             note='canonical_form_infinite1/2 and L > 4 not covered; trusts TLC and harness/mps.py (dense_from_mps)'),
+ 'C08': dict(text='spec/MPSMeasure.tla computes exact numerators and denominators on the dense state for expectation_value (one/multi-site), expectation_value_term and _terms_sum (JW, i<j, i=j, i>j), correlation_function (opstr, str_on_first, autoJW, hermitian), term_correlation_function_left/right, overlap / full_contraction with different bra and ket, get_rho_segment, Renyi-2 mutinf_two_site, probability_per_charge / average_charge / charge_variance, sample_measurements (weight = Born amplitude or probability for every sampled outcome); TLC checks RealNorm, HermitianReal, CorrHermitian, Anticommute, RhoTrace; every generated measurement is replayed on the real MPS / MPSEnvironment and compared with the exact ratio (rtol 1e-10).',
+             note='infinite MPS beyond product states (TransferMatrix overlaps, correlation_length) and von-Neumann mutual information not covered; trusts TLC and harness/mps.py'),
+ 'C09': dict(text='spec/MPSTransform.tla: transformations as maps on the dense state: apply_local_op (names with JW strings, unitary flag, two-site arrays), apply_product_op, apply_local_term, swap_sites (fermionic sign), permute_sites, add, group_sites/group_split, enlarge_chi, compress_svd (overlap relation), canonical_form, spatial_inversion, roll_mps_unit_cell, enlarge_mps_unit_cell, extract_segment; TLC checks Rep9 (up to the documented global sign), InversionInvolution, SwapInvolution, RollRelabels, EnlargeKeeps, NormKept over all sequences of <= 2-3 transformations, every bc and mixed forms; behaviours are replayed into real MPS objects and the projected dense state and norm compared exactly (relations where SVD is involved).',
+             note='perturb, variational compress, compute_K, swap across the unit-cell boundary not covered; truncation quality only as overlap >= reported bound; trusts TLC and harness/mps.py'),
  'C12': dict(text='spec/Sites.tla defines every predefined site class (spin S<=3, boson cutoff<=4, clock q<=5, fermion, spinful fermion, hole) from the documented physics with exact entries (phase, integer times square root of a squarefree radical, denominator) for every conserve option; TLC checks the defining algebras, hc pairs, operator charges and the permutation between conserve options, and the grouping/common-charge policies. spec/Fermion.tla is a genuine Fock space on bit strings plus tenpy\'s Jordan-Wigner route written like the implementation; TLC checks CAR and that every route yields the signed partial permutation of the product of true fermionic operators for all pairs/quadruples on <=6 sites. Every table and every term is replayed on the real Site objects and through each tenpy route (order_combine_term, *_handle_JW, TermList->MPOGraph->MPO, add_coupling/add_multi_coupling, expectation_value_term, apply_local_term, correlation_function, GroupedSite) and compared exactly.',
              note='clock-site phases come from np.exp and are compared at 1e-13; infinite bc / unit-cell shifts in handle_JW, explicit_plus_hc not replayed; trusts TLC and harness/sites.py'),
  'C13': dict(text='spec/Sweep.tla is the sweep/environment bookkeeping state machine (tensor versions, LP/RP parts with the versions they were contracted from, ages, schedules of one-/two-site engines on finite and infinite chains, mixers, free_no_longer_needed_envs); TLC checks FreshEnvs, AgeRule, SweepCoversAllBonds, NoRecompute, EnergySize; real DMRG/TDVP runs are recorded by interposition on set_B / get_LP / get_RP / del_* / update_local / make_eff_H and each history is validated by TLC against spec/TraceSweep.tla. spec/Solvable.tla carries certified exactly solvable Hamiltonians (classical, dimer, Majumdar-Ghosh, ferromagnet) with certificates TLC checks over the integers; engines x mixers x diag methods are run on them and the postconditions (norm, canonical form, charge sector, E = <H>, E >= E0, E = E0 and overlap 1 when untruncated) are evaluated with the certified data; effective Hamiltonians on integer data are compared exactly.',
              note='convergence for Hamiltonians without certificate and VUMPS in the thermodynamic limit are not decided; orthogonal_to / segment bc not traced; trusts TLC and harness/sweeps.py'),
  'C14': dict(text='spec/TimeEvo.tla models time/schedule/truncation-error accounting of all time-evolution engines (Suzuki-Trotter schedules as exact symbolic polynomials, error bags); TLC checks TimeAdvance, ScheduleComposes, ErrAccounting over all orders/splits; real engine runs (TEBD 1/2/4/4_opt, QR-TEBD, TDVP 1/2-site, ExpMPO I/II, time-dependent variants) are recorded by run-time interposition and each trace is validated by TLC against spec/TraceTimeEvo.tla with every invariant evaluated at every event.',
              note='orders of convergence in dt and drift bounds are asymptotic numerical claims and not decided; trusts TLC, the recorder harness/timeevo.py'),
+ 'C15': dict(text='spec/Truncation.tla is a declarative semantics of truncate(): spectra as sequences of naturals (unsorted, zeros, ties, not normalised), every option possibly None, each constraint a predicate on the keep-count, documented priority fold with dropped constraints, result = largest admissible cut, eps and norm as exact rationals; TLC checks NoInversion, Honoured, Maximal, Priority, DroppedOnlyIfForced, BudgetRespected and the TruncationError algebra over all spectra of length <= 4-5 x all option combinations; every case is replayed on the real truncate() (permuted, scaled, normalised input) and on svd_theta / eigh_rho / decompose_theta_qr_based with matrices whose integer singular values TLC certifies (ThetaCertified).',
+             note='ties closer than 1e-10 and rank-deficient matrices in the decompositions not covered; trusts TLC and the rational->float conversion (power-of-two scales)'),
+ 'C19': dict(text='spec/Lattice.tla defines orderings (named, standard with snake/priority, grouped, permutations), mps2lat/lat2mps with periodic extension, identification of positions under open/periodic/shifted boundaries, couplings by two independent enumerations (constructive and brute force over all pairs), multi-couplings, strength indexing by the reduced lower-left corner, irregular/helical/multi-species variants and neighbour classes through integer quadratic forms; TLC checks OrderIsBijection, RoundTrip, EachPairExactlyOnce, InfiniteBoundaryPairInOneCell, FlipSymmetry, StrengthIndex, CountNeighbors on every enumerated case (lattice class x size <= 3x3/4x4 x ordering x bc x dx x (u1,u2)); every case is replayed on the real lattice objects (order, index maps on [-2N,3N), possible_couplings / possible_multi_couplings multisets and strengths through CouplingModel.add_coupling, pairs, count_neighbors, distance, mps2lat_values(_masked)).',
+             note='orderings and boundary conditions are factorised (every ordering with periodic bc; every bc with 3 orderings); plotting/BZ helpers out of scope; trusts TLC and harness/lattice.py'),
  'C20': dict(text='TLC exhaustively checks Events / DictCacheSeq / CacheThreaded (emit order, exact disconnect, dictionary refinement, sub-cache isolation, no deadlock, failure surfaces) for all operation sequences and interleavings up to a bound; every generated behaviour is replayed step by step into the real EventHandler / DictCache over Storage, PickleStorage, Hdf5Storage and, under a deterministic cooperative scheduler substituted for queue/threading, into the real ThreadedStorage + Worker.',
              note='preemption inside steps without shared accesses is unobservable and not explored; trusts TLC, the scheduler harness/dst.py, projections in checks/c20*.py'),
 }
